@@ -59,14 +59,23 @@ def run_case(ctx, rng, job):
     # ... and they take part in the general pool: equality and hashing against ordinarily named interfaces are
     # plain tuple equality of the keys (ordering such a pair is unorderable, like the keys themselves)
     ifs.extend(spaced[:2])
+    # interfaces made where no module name can be found (exec'd code, C callers): __module__ is None.  Keys (name, None)
+    # compare like any tuple: equal keys are equal and unordered, different names decide, and None against a str module
+    # under the same name is unorderable
+    nomod_names = rng.sample(NAMES[1:], 2)
+    nomod = [eval('InterfaceClass(n, (Interface,), {})', {'InterfaceClass': InterfaceClass, 'Interface': Interface, 'n': fresh(n_)})
+             for n_ in nomod_names + nomod_names[:1]]
+    if all(x.__module__ is None for x in nomod):
+        ctx.count('interfaces_without_module', len(nomod))
+        ifs.extend(nomod)
     # equal-keyed twins, on purpose (never wired into one graph)
     for _ in range(rng.randint(1, 3)):
-        t = rng.choice([x for x in ifs if x.__name__ is not None])
+        t = rng.choice([x for x in ifs if x.__name__ is not None and x.__module__ is not None])
         ifs.append(InterfaceClass(fresh(t.__name__), (Interface,), {}, __module__=fresh(t.__module__)))
     # equal-keyed twins whose concrete classes differ: an instance of an InterfaceClass subclass, and an interface
     # defining an interfacemethod (the library builds a private InterfaceClass subclass for it)
     for _ in range(rng.randint(1, 2)):
-        t = rng.choice([x for x in ifs if x.__name__ is not None])
+        t = rng.choice([x for x in ifs if x.__name__ is not None and x.__module__ is not None])
         if rng.random() < 0.5:
             ifs.append(SubInterfaceClass(fresh(t.__name__), (Interface,), {}, __module__=fresh(t.__module__)))
         else:
@@ -183,14 +192,21 @@ def run_case(ctx, rng, job):
                         pass            # mixed, different keys: not equal either way
                     else:
                         continue        # mixed pair with colliding key: not fixed by the statement
-                got = op(a, b)
+                try:
+                    got = op(a, b)
+                except Exception as e:
+                    got = 'raised %s' % type(e).__name__
                 ctx.ev()
                 if got is not exp:
                     ctx.violation('operator-vs-key', {'op': oname, 'a': [type(a).__name__] + list(ka),
                                                       'b': [type(b).__name__] + list(kb), 'got': repr(got), 'expected': exp})
             # reflected forms agree
             ctx.ev()
-            orderable = (ka[0] is None) == (kb[0] is None)
+            try:
+                ka < kb
+                orderable = True
+            except TypeError:
+                orderable = False
             if (a == b) != (b == a) or (a != b) == (a == b) or \
                     (orderable and ((a < b) != (b > a) or (a <= b) != (b >= a))):
                 ctx.violation('reflection', {'a': list(map(str, ka)), 'b': list(map(str, kb))})
@@ -216,7 +232,35 @@ def run_case(ctx, rng, job):
                     ctx.violation('foreign-ordering-no-typeerror', {'a': list(key(a)), 'op': oname, 'foreign': repr(f)})
                 except TypeError:
                     pass
-    named = [x for x in pool if x.__name__ is not None]
+    # an interface name whose comparison runs code that renames the *other* interface meanwhile (names and modules are
+    # plain writable attributes): the comparison must survive it (C: the strings being compared must stay alive)
+    victim = []
+
+    class Meddling(str):
+        __hash__ = str.__hash__
+
+        def __eq__(self, other):
+            v = victim[0]
+            v.__name__ = ''.join(['renamed', str(rng.random())])
+            v.__ibmodule__ = ''.join(['elsewhere', str(rng.random())])
+            junk = [bytearray(64) for _ in range(500)]
+            del junk
+            return str.__eq__(self, other)
+
+        def __ne__(self, other):
+            return not self.__eq__(other)
+    med = InterfaceClass(Meddling('AAAA'), (Interface,), {}, __module__='m')
+    vic = InterfaceClass(''.join(['B', 'name', str(rng.random())]), (Interface,), {}, __module__=''.join(['mod', str(rng.random())]))
+    victim.append(vic)
+    for _ in range(6):
+        for oname, op in OPS:
+            ctx.ev()
+            ctx.count('comparisons_with_a_meddling_name')
+            r = op(med, vic)
+            if not isinstance(r, bool):
+                ctx.violation('meddling-name-comparison', {'op': oname, 'got': repr(r)})
+            r = op(vic, med)
+    named = [x for x in pool if x.__name__ is not None and x.__module__ is not None]
     for _ in range(300 if big else 120):
         a, b, c = (rng.choice(named) for _ in range(3))
         ctx.ev()
